@@ -921,7 +921,9 @@ impl Th {
                 let Some(c) = self.pick_cell(op.a, x) else { return false };
                 let Some(f) = self.pick_frame(op.b, x) else { return false };
                 let cell = self.cell(c);
+                let (before, o0) = (circ::verif::atomic_rc_peek(cell), sched::steps_by_others(self.tid));
                 let s = unstatic(cell.load(load_ord(op.c), &self.frames[f].guard));
+                cell_rw_check("C08", "AtomicRc::load", before, circ::verif::atomic_rc_peek(cell), None, Some(circ::verif::snapshot_word(&s)), sched::steps_by_others(self.tid) == o0);
                 let o = with(|sh| sh.obj_of_word(circ::verif::snapshot_word(&s)));
                 self.log(format!("load({})={:?}", Self::cell_name(c), o));
                 self.put_snap(f, s, "load");
@@ -963,7 +965,12 @@ impl Th {
                     }
                 };
                 self.log(format!("store({},{:?})", Self::cell_name(c), o));
-                self.cell(c).store(rc, store_ord(op.c), &self.frames[f].guard);
+                {
+                    let cell = self.cell(c);
+                    let (before, o0, nw) = (circ::verif::atomic_rc_peek(cell), sched::steps_by_others(self.tid), circ::verif::rc_word(&rc));
+                    cell.store(rc, store_ord(op.c), &self.frames[f].guard);
+                    cell_rw_check("C08", "AtomicRc::store", before, circ::verif::atomic_rc_peek(cell), Some(nw), None, sched::steps_by_others(self.tid) == o0);
+                }
                 with(|s| s.bump("cell_writes"));
                 true
             }
@@ -982,7 +989,13 @@ impl Th {
                         }
                     }
                 };
-                let old = self.cell(c).swap(rc, swap_ord(op.c));
+                let old = {
+                    let cell = self.cell(c);
+                    let (before, o0, nw) = (circ::verif::atomic_rc_peek(cell), sched::steps_by_others(self.tid), circ::verif::rc_word(&rc));
+                    let old = cell.swap(rc, swap_ord(op.c));
+                    cell_rw_check("C08", "AtomicRc::swap", before, circ::verif::atomic_rc_peek(cell), Some(nw), Some(circ::verif::rc_word(&old)), sched::steps_by_others(self.tid) == o0);
+                    old
+                };
                 let oo = with(|s| {
                     s.bump("cell_writes");
                     s.obj_of_word(circ::verif::rc_word(&old))
@@ -1007,7 +1020,24 @@ impl Th {
                     }
                 }
                 let guard: &Guard = unsafe { &*(&self.frames[f].guard as *const Guard) };
+                let (before, ew) = (circ::verif::atomic_rc_peek(cell), circ::verif::snapshot_word(&exp));
+                let others0 = sched::steps_by_others(self.tid);
                 let res = cell.compare_exchange_tag(exp, tag, so, fo, guard);
+                let undisturbed = sched::steps_by_others(self.tid) == others0;
+                let after = circ::verif::atomic_rc_peek(cell);
+                cell_spec_check(
+                    "C08",
+                    "AtomicRc::compare_exchange_tag",
+                    before,
+                    after,
+                    ew,
+                    (ew & !7usize) | (tag & 7),
+                    res.is_ok(),
+                    true,
+                    undisturbed,
+                    res.as_ref().ok().map(|p| circ::verif::snapshot_word(p)),
+                    res.as_ref().err().map(|e| circ::verif::snapshot_word(&e.current)),
+                );
                 match res {
                     Ok(s) => {
                         let s = unstatic(s);
@@ -1077,7 +1107,9 @@ impl Th {
             K::WLoad => {
                 let Some((name, cell)) = self.pick_wcell(op.a, x) else { return false };
                 let Some(f) = self.pick_frame(op.b, x) else { return false };
+                let (before, o0) = (circ::verif::atomic_weak_peek(cell), sched::steps_by_others(self.tid));
                 let s = wunstatic(cell.load(load_ord(op.c), &self.frames[f].guard));
+                cell_rw_check("C09", "AtomicWeak::load", before, circ::verif::atomic_weak_peek(cell), None, Some(circ::verif::weak_snapshot_word(&s)), sched::steps_by_others(self.tid) == o0);
                 let o = with(|sh| sh.obj_of_word(circ::verif::weak_snapshot_word(&s)));
                 self.log(format!("wload({})={:?}", name, o));
                 self.put_wsnap(f, s);
@@ -1101,7 +1133,11 @@ impl Th {
                     Some(i) => self.take_weak(i),
                 };
                 self.log(format!("wstore({},{:?})", name, o));
-                cell.store(w, store_ord(op.c), &self.frames[f].guard);
+                {
+                    let (before, o0, nw) = (circ::verif::atomic_weak_peek(cell), sched::steps_by_others(self.tid), circ::verif::weak_word(&w));
+                    cell.store(w, store_ord(op.c), &self.frames[f].guard);
+                    cell_rw_check("C09", "AtomicWeak::store", before, circ::verif::atomic_weak_peek(cell), Some(nw), None, sched::steps_by_others(self.tid) == o0);
+                }
                 true
             }
             K::WSwap => {
@@ -1111,7 +1147,9 @@ impl Th {
                     Some(i) if i == self.weaks.len() => (Weak::null(), None),
                     Some(i) => self.take_weak(i),
                 };
+                let (before, o0, nw) = (circ::verif::atomic_weak_peek(cell), sched::steps_by_others(self.tid), circ::verif::weak_word(&w));
                 let old = cell.swap(w, swap_ord(op.c));
+                cell_rw_check("C09", "AtomicWeak::swap", before, circ::verif::atomic_weak_peek(cell), Some(nw), Some(circ::verif::weak_word(&old)), sched::steps_by_others(self.tid) == o0);
                 self.log(format!("wswap({},{:?})", name, o));
                 self.put_weak(old);
                 true
@@ -1134,6 +1172,23 @@ impl Th {
                 let guard: &Guard = unsafe { &*(&self.frames[f].guard as *const Guard) };
                 let res = cell.compare_exchange_tag(exp, tag, so, fo, guard);
                 let others1 = sched::steps_by_others(self.tid);
+                {
+                    let ew = circ::verif::weak_snapshot_word(&exp);
+                    let after = circ::verif::atomic_weak_peek(cell);
+                    cell_spec_check(
+                        "C09",
+                        "AtomicWeak::compare_exchange_tag",
+                        before,
+                        after,
+                        ew,
+                        (ew & !7usize) | (tag & 7),
+                        res.is_ok(),
+                        true,
+                        others0 == others1,
+                        res.as_ref().ok().map(|p| circ::verif::weak_snapshot_word(p)),
+                        res.as_ref().err().map(|e| circ::verif::weak_snapshot_word(&e.current)),
+                    );
+                }
                 match res {
                     Ok(s) => {
                         self.log(format!("wcas_tag({},{})=ok", name, tag));
@@ -1230,11 +1285,28 @@ impl Th {
             }
         }
         let guard: &Guard = unsafe { &*(&self.frames[f].guard as *const Guard) };
+        let (before, ew) = (circ::verif::atomic_rc_peek(cell), circ::verif::snapshot_word(&exp));
+        let others0 = sched::steps_by_others(self.tid);
         let res = if op.k == K::Cas {
             cell.compare_exchange(exp, des, so, fo, guard)
         } else {
             cell.compare_exchange_weak(exp, des, so, fo, guard)
         };
+        let undisturbed = sched::steps_by_others(self.tid) == others0;
+        let after = circ::verif::atomic_rc_peek(cell);
+        cell_spec_check(
+            "C08",
+            if op.k == K::Cas { "AtomicRc::compare_exchange" } else { "AtomicRc::compare_exchange_weak" },
+            before,
+            after,
+            ew,
+            dword,
+            res.is_ok(),
+            op.k == K::Cas,
+            undisturbed,
+            res.as_ref().ok().map(|p| circ::verif::rc_word(p)),
+            res.as_ref().err().map(|e| circ::verif::snapshot_word(&e.current)),
+        );
         match res {
             Ok(prev) => {
                 if !prev.snapshot(guard).ptr_eq(exp) {
@@ -1315,11 +1387,28 @@ impl Th {
             }
         }
         let guard: &Guard = unsafe { &*(&self.frames[f].guard as *const Guard) };
+        let ew = circ::verif::weak_snapshot_word(&exp);
+        let others0 = sched::steps_by_others(self.tid);
         let res = if op.k == K::WCas {
             cell.compare_exchange(exp, des, so, fo, guard)
         } else {
             cell.compare_exchange_weak(exp, des, so, fo, guard)
         };
+        let undisturbed = sched::steps_by_others(self.tid) == others0;
+        let after = circ::verif::atomic_weak_peek(cell);
+        cell_spec_check(
+            "C09",
+            if op.k == K::WCas { "AtomicWeak::compare_exchange" } else { "AtomicWeak::compare_exchange_weak" },
+            before,
+            after,
+            ew,
+            dword,
+            res.is_ok(),
+            op.k == K::WCas,
+            undisturbed,
+            res.as_ref().ok().map(|p| circ::verif::weak_word(p)),
+            res.as_ref().err().map(|e| circ::verif::weak_snapshot_word(&e.current)),
+        );
         match res {
             Ok(prev) => {
                 if !prev.snapshot(guard).ptr_eq(exp) {
@@ -1507,6 +1596,100 @@ impl Th {
             g.flush();
         }
         sched::op_done();
+    }
+}
+
+
+fn same_pt(a: usize, b: usize) -> bool {
+    (a & !(0xFusize << 60)) == (b & !(0xFusize << 60))
+}
+
+/// Sequential specification of load / store / swap, applied when no other thread took a step.
+fn cell_rw_check(prop: &'static str, what: &str, before: usize, after: usize, new: Option<usize>, returned: Option<usize>, undisturbed: bool) {
+    if !undisturbed {
+        return;
+    }
+    let oracle = if prop == "C08" { "O-cell" } else { "O-wcell" };
+    let fail = |sig: &str, d: String| -> ! {
+        let tr = with(|s| s.tail(30));
+        violation(prop, oracle, &format!("{}/{}", oracle, sig), &format!("{}: {}; cell before {:#x}, after {:#x}; trace: {}", what, d, before, after, tr))
+    };
+    if let Some(r) = returned {
+        if !same_pt(r, before) {
+            fail("returned-not-content", format!("returned {:#x}, which is not the pointer+tag the cell held", r));
+        }
+    }
+    match new {
+        Some(n) => {
+            if !same_pt(after, n) {
+                fail("written-not-stored", format!("the cell should now hold {:#x} (pointer+tag)", n));
+            }
+        }
+        None => {
+            if after != before {
+                fail("read-wrote", "a load changed the cell".to_string());
+            }
+        }
+    }
+}
+
+/// Sequential specification of one CAS on a (pointer, tag) cell, applied when no other thread took
+/// a step during the call (`undisturbed`), on raw words with the epoch bits masked by the harness
+/// itself (not by the library's `ptr_eq`).
+#[allow(clippy::too_many_arguments)]
+fn cell_spec_check(
+    prop: &'static str,
+    what: &str,
+    before: usize,
+    after: usize,
+    expected: usize,
+    installed_on_success: usize,
+    ok: bool,
+    strong: bool,
+    undisturbed: bool,
+    returned_prev: Option<usize>,
+    returned_current: Option<usize>,
+) {
+    let oracle = if prop == "C08" { "O-cas" } else { "O-wcas" };
+    let fail = |sig: &str, d: String| -> ! {
+        let tr = with(|s| s.tail(30));
+        violation(prop, oracle, &format!("{}/{}", oracle, sig), &format!("{}: {}; cell before {:#x}, after {:#x}, expected {:#x}; trace: {}", what, d, before, after, expected, tr))
+    };
+    if let Some(p) = returned_prev {
+        if ok && !same_pt(p, expected) {
+            fail("prev-not-expected", format!("success returned a previous value {:#x} that differs from expected in pointer or tag", p));
+        }
+    }
+    if let Some(c) = returned_current {
+        if !ok && strong && same_pt(c, expected) {
+            fail("fail-but-equal", format!("a strong CAS failed and returned a current value {:#x} that equals expected in pointer and tag", c));
+        }
+    }
+    if !undisturbed {
+        return;
+    }
+    let eq = same_pt(before, expected);
+    if ok && !eq {
+        fail("success-but-not-equal", "the CAS succeeded although the cell's pointer+tag differed from expected".to_string());
+    }
+    if !ok && eq && strong {
+        fail("fail-but-equal", "a strong CAS failed although the cell's pointer+tag equalled expected and nobody else touched the cell".to_string());
+    }
+    if ok && !same_pt(after, installed_on_success) {
+        fail("wrong-content-after-success", format!("after success the cell should hold {:#x} (pointer+tag)", installed_on_success));
+    }
+    if !ok && after != before {
+        fail("failed-cas-wrote", "a failed CAS changed the cell".to_string());
+    }
+    if let Some(c) = returned_current {
+        if !ok && !same_pt(c, before) {
+            fail("wrong-current", format!("failure returned current {:#x}, which is not what the cell held", c));
+        }
+    }
+    if let Some(p) = returned_prev {
+        if ok && !same_pt(p, before) {
+            fail("wrong-previous", format!("success returned previous {:#x}, which is not what the cell held", p));
+        }
     }
 }
 
